@@ -7,7 +7,8 @@ wt = sys.argv[2] if len(sys.argv) > 2 else f"/tmp/wt3/{pid}"
 p = next(json.loads(l) for l in open('/verif/properties.jsonl') if json.loads(l)['id'] == pid)
 KNOWN = """Already known and not wanted again (all but the last are repaired in your checkout):
   - turmoil-fs read_dir order came from a std HashSet; turmoil::net FIN lost on a full receive queue; random link repair erased an explicit one-way partition; turmoil::net TcpStream::connect leaked its table entry / port when refused or cancelled; turmoil-net abort of a SynReceived child leaked it; turmoil-net never re-acknowledged a retransmitted segment after a lost ACK; turmoil-net carried handshake retransmit attempts into the established connection;
-  - turmoil-net zero-window stall (no persist timer; poll_recv re-advertises only for reads >= recv_buf_cap/2) - still present, recorded."""
+  - also repaired: due messages staged in a second per-destination link queue escaped hold() / Sim::links; UdpSocket::readable parked a datagram outside the bounded queue (capacity + 1); sync_dir moved the durable entry of a cross-directory rename per side; sync_dir(d) flushed d's creation past a pending RemoveDir(d);
+  - still present, recorded (do not report again): turmoil-net zero-window stall (no persist timer; poll_recv re-advertises only for reads >= recv_buf_cap/2); the turmoil::net TCP SYN-ACK is a oneshot fired by accept() and bypasses the link (hold / latency); multicast members are snapshotted at send time (a copy in flight reaches a socket that left / never joined); turmoil-fs keys pending data ops and durable entries by path string (data sync while a rename is pending, re-created files inheriting old contents, children of a renamed directory stranded, entries of a removed directory resurrecting); ticks that are not whole milliseconds make tokio clocks run ahead of virtual time; multicast-loop flag read from the destination port's socket; IPv4 broadcast fanned out to IPv6 hosts."""
 print(f"""You are auditing the Rust project tokio-rs/turmoil (a deterministic simulation framework: crates turmoil, turmoil-net, turmoil-fs, turmoil-io-uring) for GENUINE defects. You have your own scratch git worktree at {wt}. Work ONLY inside {wt} (never touch /repo or /verif, do not read /verif). The sandbox is offline: always pass --offline to cargo, and always set CARGO_TARGET_DIR={wt}/target so builds stay inside your worktree. Do not modify library sources (crates/*/src) except temporarily to try a candidate repair.
 
 Here is a semantic property the project is supposed to satisfy:
